@@ -115,6 +115,67 @@ theorem limits_respected (w : World) (s : Strategy) (o : Order)
       have := this heq
       simp_all
 
+/-- C10.3 (cool-downs) an unforced placement that `validate_order` lets through (outside the multi-order
+    shortcut) is outside both cool-down windows: at least `reset_seconds` have passed on the clock since
+    the last completed trade on the runner and at least `place_reset_seconds` since the last placement.
+    No exception at an elapsed time of exactly zero - a trade that completes at an update and a placement
+    in the callback of that same update - since fix F25 (before it the guard was a truthiness test and the
+    statement needed the hypothesis `elapsed ≠ 0`). -/
+theorem cool_downs_respected (w : World) (s : Strategy) (o : Order)
+    (hok : w.validateOrderCtx s o = none)
+    (hshort : ¬ (s.multiOrder = true ∧ (w.ctx ⟨o.strategy, o.market, o.sel, o.hc⟩).liveTrades.contains (w.trade! o.trade).id = true)) :
+    (∀ r, (w.ctx ⟨o.strategy, o.market, o.sel, o.hc⟩).lastReset = some r →
+        (w.trade! o.trade).resetSeconds ≤ elapsedSeconds w.clock r) ∧
+    (∀ p, (w.ctx ⟨o.strategy, o.market, o.sel, o.hc⟩).lastPlaced = some p →
+        (w.trade! o.trade).placeResetSeconds ≤ elapsedSeconds w.clock p) := by
+  unfold validateOrderCtx at hok
+  simp only at hok
+  have hs : (s.multiOrder && (w.ctx ⟨o.strategy, o.market, o.sel, o.hc⟩).liveTrades.contains (w.trade! o.trade).id) = false := by
+    cases hm : s.multiOrder <;> simp_all
+  rw [hs] at hok
+  simp only [Bool.false_eq_true, if_false] at hok
+  split_ifs at hok with h1 h2 h3 h4
+  constructor
+  · intro r hr
+    rw [hr] at h1
+    simp only [Option.map_some, decide_eq_true_eq] at h1
+    exact Rat.not_lt.mp h1
+  · intro p hp
+    rw [hp] at h2
+    simp only [Option.map_some, decide_eq_true_eq] at h2
+    exact Rat.not_lt.mp h2
+
+/-- C10.3 (converse: no lock-out by a cool-down) a placement refused with the reason `reset_elapsed_seconds` really is inside
+    the window after a completed trade -/
+theorem cool_down_refusal_is_inside (w : World) (s : Strategy) (o : Order)
+    (h : w.validateOrderCtx s o = some "reset_elapsed_seconds") :
+    ∃ r, (w.ctx ⟨o.strategy, o.market, o.sel, o.hc⟩).lastReset = some r ∧
+      elapsedSeconds w.clock r < (w.trade! o.trade).resetSeconds := by
+  unfold validateOrderCtx at h
+  simp only at h
+  split_ifs at h with h0 h1 h2 h3 h4
+  · cases hr : (w.ctx ⟨o.strategy, o.market, o.sel, o.hc⟩).lastReset with
+    | none => rw [hr] at h1; simp at h1
+    | some r =>
+      rw [hr] at h1
+      simp only [Option.map_some, decide_eq_true_eq] at h1
+      exact ⟨r, rfl, h1⟩
+  all_goals (exact absurd h (by decide))
+
+/-- the premises are met by a state inside a cool-down's complement and the conclusion is not vacuous: a runner whose last
+    trade completed 30 s ago accepts a trade with `reset_seconds = 30`, and refuses it at 0 s and at 0.5 s -/
+def wCool (now : Time) : World :=
+  { clock := now,
+    strategies := [{ id := 0 }],
+    trades := [{ id := 0, strategy := 0, market := 0, sel := 1, hc := 0, resetSeconds := 30 }],
+    ctxs := [{ key := ⟨0, 0, 1, 0⟩, trades := [7], lastReset := some 1000, lastPlaced := some 500 }] }
+
+def oCool : Order := { id := 0, trade := 0, strategy := 0, market := 0, sel := 1, hc := 0, sim := { side := .back, kind := .limit, price := 2, size := 4 } }
+
+example : (wCool 31000).validateOrderCtx { id := 0 } oCool = none := by decide +kernel
+example : (wCool 1000).validateOrderCtx { id := 0 } oCool = some "reset_elapsed_seconds" := by decide +kernel
+example : (wCool 1500).validateOrderCtx { id := 0 } oCool = some "reset_elapsed_seconds" := by decide +kernel
+
 /-! ### trade completion -/
 
 /-- C10.2 `Trade.complete` is true exactly when the trade is LIVE, not flagged pending_orders and
